@@ -35,6 +35,11 @@ pub enum Op {
     DropRegionDb,
     KeepReader,
     DropReader,
+    /// keep a plain `File` obtained from `open_read_only_file()` / `Region::
+    /// open_db_read_only_file()`: not an owner of the instance — the statement lists handles,
+    /// region-derived references and readers — so it must not keep the directory locked
+    KeepRoFile,
+    DropRoFile,
     /// background task that runs until released
     RunBg,
     /// release the background task and sync_bg_tasks()
@@ -51,6 +56,7 @@ struct Sys {
     handles: Vec<Database>,
     region_dbs: Vec<Database>,
     readers: Vec<Reader>,
+    ro_files: Vec<fs::File>,
     bg_release: Option<Arc<AtomicBool>>,
     /// contents of region "r" as of the last flush
     flushed: Vec<u8>,
@@ -123,6 +129,9 @@ impl Sys {
                 if self.bg_release.is_none() {
                     v.push(Op::RunBg);
                 }
+                if self.ro_files.len() < 2 {
+                    v.push(Op::KeepRoFile);
+                }
                 if self.n_writes < 2 && self.readers.is_empty() {
                     v.push(Op::WriteFlush);
                 }
@@ -136,6 +145,9 @@ impl Sys {
             if self.bg_release.is_some() && self.any_db().is_some() {
                 v.push(Op::SyncBg);
             }
+        }
+        if !self.ro_files.is_empty() {
+            v.push(Op::DropRoFile);
         }
         v.push(Op::AttemptInProcess(0));
         v.push(Op::AttemptInProcess(LARGE));
@@ -158,11 +170,12 @@ impl Sys {
         let mut bad = Vec::new();
         let owners = self.owners();
         let sit = format!(
-            "{}{}{}{}",
+            "{}{}{}{}{}",
             if self.handles.is_empty() { "" } else { "handle;" },
             if self.region_dbs.is_empty() { "" } else { "region_db;" },
             if self.readers.is_empty() { "" } else { "reader;" },
-            if self.bg_release.is_some() { "bg_task;" } else { "" }
+            if self.bg_release.is_some() { "bg_task;" } else { "" },
+            if self.ro_files.is_empty() { "" } else { "ro_file;" }
         );
         match op {
             Op::Open(min) => match Database::open_with_min_len(&self.dir, min) {
@@ -199,6 +212,18 @@ impl Sys {
             }
             Op::DropReader => {
                 self.readers.pop();
+            }
+            Op::KeepRoFile => {
+                let db = &self.handles[0];
+                let f = if self.ro_files.is_empty() {
+                    db.open_read_only_file().expect("open_read_only_file")
+                } else {
+                    db.create_region_if_needed("aux").expect("aux").open_db_read_only_file().expect("open_db_read_only_file")
+                };
+                self.ro_files.push(f);
+            }
+            Op::DropRoFile => {
+                self.ro_files.pop();
             }
             Op::RunBg => {
                 let flag = Arc::new(AtomicBool::new(false));
@@ -337,6 +362,7 @@ pub fn add(run: &mut Run, kf: &KnownFindings, tier: &str) {
                 handles: vec![],
                 region_dbs: vec![],
                 readers: vec![],
+                ro_files: vec![],
                 bg_release: None,
                 flushed: vec![],
                 pending: vec![],
@@ -353,7 +379,7 @@ pub fn add(run: &mut Run, kf: &KnownFindings, tier: &str) {
             }
             // child attempts are leaves: they are the expensive step
             let next = sys.ops(hist.len() + 1 == depth);
-            let obs = hash64(&(sys.owners(), sys.n_writes, sys.bg_release.is_some(), file_state(&sys.dir).len()));
+            let obs = hash64(&(sys.owners(), sys.n_writes, sys.bg_release.is_some(), sys.ro_files.len(), file_state(&sys.dir).len()));
             (last, next, obs, false)
         });
         steps += hist.len() as u64;
